@@ -281,6 +281,14 @@ func (idx *PQIndex) Add(vector VectorNode) error {
 	}
 
 	// Encode vector into PQ code
+	// Re-adding an ID that is still soft-deleted (update = remove + add): purge the
+	// pending deletions first, otherwise the stale mark would hide the new vector.
+	if idx.deletedNodes.Contains(vector.ID()) {
+		if err := idx.flushLocked(); err != nil {
+			return err
+		}
+	}
+
 	code := idx.encode(vector.Vector())
 
 	// Store compressed code and metadata
@@ -368,6 +376,12 @@ func (idx *PQIndex) Remove(vector VectorNode) error {
 func (idx *PQIndex) Flush() error {
 	idx.mu.Lock()
 	defer idx.mu.Unlock()
+
+	return idx.flushLocked()
+}
+
+// flushLocked is Flush without locking. The caller MUST hold the write lock.
+func (idx *PQIndex) flushLocked() error {
 
 	// Quick exit if nothing to flush
 	deletedCount := int(idx.deletedNodes.GetCardinality())
